@@ -3,13 +3,23 @@
 // inter-procedural programs (intertext.hpp).
 // Options in the header:
 //   an=td|bu  mcc=<n>|inf  exact=0|1  rec=0|1  delay= desc= thr=  chk=0|1  budom=itv|zones
+//   verd=1 nasserts=<n> props=assert|divzero+assert|assert+divzero   (C02, see below)
 // Output:  T0 pre=<s> post=<s> ; ... # T1 ... @ S<f> <pre> => <post> ; ...
 //   (tables of get_pre/get_post for every block of every function, then the pre/post pairs of
 //   get_summary(f) in their stored order).  States: at(v) for every pool variable, "|"-separated;
 //   zones summaries additionally list, after " D ", the interval of vi - vj for all formals i<j.
+// With verd=1 the verdicts of the assertion checker are appended: " ; checks=" and then, for the
+// assertion ids 1..nasserts in order, "-" if the database has no entry for debug_info("prog",id,0,id),
+// otherwise the letters S/W/E/U of get_checks(di) in their stored order followed by ",".
+//   top-down:  the checker interleaved with the analysis (run_checker = true), a.get_all_checks()
+//   bottom-up: crab::checker::inter_checker over all functions after the analysis, with the property
+//              checkers of props= in that order, checker.get_all_checks()
 #include "intertext.hpp"
 #include <crab/analysis/inter/top_down_inter_analyzer.hpp>
 #include <crab/analysis/inter/bottom_up_inter_analyzer.hpp>
+#include <crab/checkers/assertion.hpp>
+#include <crab/checkers/checker.hpp>
+#include <crab/checkers/div_zero.hpp>
 #include <crab/cg/cg.hpp>
 #include <crab/cg/cg_bgl.hpp>
 #include <crab/domains/intervals.hpp>
@@ -72,6 +82,39 @@ static std::string dump(iprogram &IP, Analyzer &a) {
   return out;
 }
 
+static std::string show_checks(iprogram &IP, const crab::checker::checks_db &db) {
+  std::string out = " ; checks=";
+  for (long id = 1; id <= std::stol(IP.P.opt("nasserts", "0")); ++id) {
+    crab::cfg::debug_info di("prog", (unsigned)id, 0, (int64_t)id);
+    if (!db.has_checks(di)) { out += "-"; continue; }
+    for (auto k : db.get_checks(di))
+      out += (k == crab::checker::check_kind::CRAB_SAFE ? "S" : k == crab::checker::check_kind::CRAB_ERR ? "E" :
+              k == crab::checker::check_kind::CRAB_WARN ? "W" : "U");
+    out += ",";
+  }
+  return out;
+}
+// bottom-up: the stand-alone inter-procedural checker with the property checkers of props=
+template <typename Analyzer>
+static std::string bu_checks(iprogram &IP, Analyzer &a) {
+  typedef crab::checker::inter_checker<Analyzer> checker_t;
+  typename checker_t::prop_checker_vector props;
+  std::string ps = IP.P.opt("props", "assert");
+  size_t p = 0;
+  while (p <= ps.size()) {
+    size_t e = ps.find('+', p);
+    if (e == std::string::npos) e = ps.size();
+    std::string name = ps.substr(p, e - p);
+    if (name == "assert") props.push_back(typename checker_t::prop_checker_ptr(new crab::checker::assert_property_checker<Analyzer>(0)));
+    else if (name == "divzero") props.push_back(typename checker_t::prop_checker_ptr(new crab::checker::div_zero_property_checker<Analyzer>(0)));
+    else return " ; checks=HARNESS-ERROR";
+    p = e + 1;
+  }
+  checker_t checker(a, props);
+  checker.run();
+  return show_checks(IP, checker.get_all_checks());
+}
+
 static std::string eval(const std::vector<std::string> &line) {
   iprogram IP;
   if (!parse_iprogram(line, IP)) return "HARNESS-ERROR";
@@ -81,7 +124,8 @@ static std::string eval(const std::vector<std::string> &line) {
   for (auto &F : IP.funcs) cfgs.push_back(z_cfg_ref_t(*F.cfg));
   cg_t cg(cfgs);
   params_t params;
-  params.run_checker = IP.P.opt("chk", "0") == "1";
+  bool verd = IP.P.opt("verd", "0") == "1";
+  params.run_checker = verd || IP.P.opt("chk", "0") == "1";
   params.widening_delay = std::stoul(IP.P.opt("delay", "2"));
   params.descending_iters = std::stoul(IP.P.opt("desc", "2"));
   params.thresholds_size = std::stoul(IP.P.opt("thr", "0"));
@@ -94,17 +138,17 @@ static std::string eval(const std::vector<std::string> &line) {
     itv_t top;
     crab::analyzer::top_down_inter_analyzer<cg_t, itv_t> a(cg, top, params);
     a.run(init);
-    return dump(IP, a);
+    return dump(IP, a) + (verd ? show_checks(IP, a.get_all_checks()) : std::string());
   } else if (IP.P.opt("budom", "itv") == "itv") {
     itv_t td_top, bu_top;
     crab::analyzer::bottom_up_inter_analyzer<cg_t, itv_t, itv_t> a(cg, td_top, bu_top, params);
     a.run(init);
-    return dump(IP, a);
+    return dump(IP, a) + (verd ? bu_checks(IP, a) : std::string());
   } else {
     itv_t td_top; zones_t bu_top;
     crab::analyzer::bottom_up_inter_analyzer<cg_t, zones_t, itv_t> a(cg, td_top, bu_top, params);
     a.run(init);
-    return dump(IP, a);
+    return dump(IP, a) + (verd ? bu_checks(IP, a) : std::string());
   }
 }
 int main(int argc, char **argv) { crab::CrabEnableWarningMsg(false); return vh::run_cases(argc, argv, eval); }
